@@ -101,6 +101,7 @@ type CallAssume struct {
 	Callee string
 	Cl     *Clause
 	Post   bool
+	Check  bool // "callsite <callee> requires …": an OBLIGATION at every direct call (over a0.., the root's parameters and its named locals), not an assumption
 }
 
 type PureParam struct {
@@ -291,12 +292,16 @@ func (ss *SpecSet) LoadSpecFile(path, pkgPath string) error {
 		case "callsite":
 			w1, r1 := splitWord(rest)
 			w2, r2 := splitWord(r1)
-			if cur == nil || w2 != "assumes" {
+			if cur == nil || (w2 != "assumes" && w2 != "requires") {
 				return fmt.Errorf("%s: bad callsite clause", where)
 			}
 			cl, err := mk(r2)
 			if err != nil {
 				return err
+			}
+			if w2 == "requires" {
+				cur.CallAssumes = append(cur.CallAssumes, &CallAssume{Callee: w1, Cl: cl, Check: true})
+				break
 			}
 			cur.CallAssumes = append(cur.CallAssumes, &CallAssume{Callee: w1, Cl: cl, Post: regexp.MustCompile(`\br[0-9]\b`).MatchString(r2)})
 		case "split":
